@@ -36,25 +36,55 @@ def _resolution_stream(ctx: Ctx):
     rng = ctx.fork("layers")
     lits, descr = [], []
     keys = ["a", "b", "c", "d"]
+    def plain(j):
+        return {k: rng.randrange(100) + 100 * j for k in keys if rng.random() < 0.5}
+
+    def nest(j, depth):
+        """what a caller may pass as data / context: a plain mapping, or a LayeredMapping (unnamed like the captured caller frame
+        LayeredMapping(locals, globals), or carrying its own name) of such, possibly with private writes"""
+        if depth == 0 or rng.random() < 0.5:
+            return plain(j)
+        sub = LM(*[nest(j, depth - 1) for _ in range(rng.randint(1, 3))], name=rng.choice([None, None, "frame", "user"]))
+        if rng.random() < 0.3:
+            sub[rng.choice(keys)] = rng.randrange(100) + 100 * j + 50
+        return sub
+
+    def lit_of(x):
+        if isinstance(x, LM):
+            return "(Sub %s %s %s)" % (copt(x.name, cstr), clist(f"({cstr(k)}, {v})" for k, v in x._mutations.items()), clist(lit_of(y) for y in x._layers))
+        return "(Plain " + clist(f"({cstr(k)}, {v})" for k, v in x.items()) + ")"
+
+    def flat(x):
+        if isinstance(x, LM):
+            out = dict(x._mutations)
+            for y in x._layers:
+                for k, v in flat(y).items():
+                    out.setdefault(k, v)
+            return out
+        return dict(x)
+
     for i in range(ctx.n(300, 4000)):
-        layers = [{k: rng.randrange(100) + 100 * j for k in keys if rng.random() < 0.5} for j in range(3)]
-        m = LM(LM(layers[0], name="data"), LM(layers[1], name="context"), LM(layers[2], name="transforms"))
-        lit_in = "(Sub None [] [%s])" % ";".join("(Sub (Some %s) [] [Plain %s])" % (cstr(nm), clist(f"({cstr(k)}, {v})" for k, v in d.items()))
-                                                 for nm, d in zip(("data", "context", "transforms"), layers))
+        parts = [nest(j, 2 if j == 1 else 1) for j in range(3)]
+        layers = [flat(x) for x in parts]
+        m = LM(LM(parts[0], name="data"), LM(parts[1], name="context"), LM(parts[2], name="transforms"))
+        lit_in = lit_of(m)
         gets, named = [], []
         for k in keys:
             v, src = m.get_with_layer_name(k)
             gets.append(f"({cstr(k)}, {copt(m.get(k), str)})")
             named.append("(%s, %s)" % (cstr(k), "None" if v is None else f"(Some ({v}, {clist(cstr(x) for x in (src.split(':') if src else []))}))"))
-            # ---- direct oracle
+            # ---- direct oracle: the value is that of the first of the three layers holding the name, and the reported source STARTS with that
+            # layer's name (whatever unnamed or named mappings the caller nested inside it)
             ctx.oracle_runs += 1
             want = next(((d[k], nm) for nm, d in zip(("data", "context", "transforms"), layers) if k in d), (None, None))
-            if (v, src) != want:
-                ctx.fail(f"{k!r} resolved to {(v, src)}, expected {want} (data, then context, then transforms)", {"kind": "resolution", "layers": layers, "key": k})
+            if (v, (src or "").split(":")[0] or None) != want:
+                ctx.fail(f"{k!r} resolved to {(v, src)}, expected {want} (data, then context, then transforms)",
+                         {"kind": "resolution", "layers": lit_in, "key": k})
+        ctx.count("layers", "nested=%d" % sum(isinstance(x, LM) for x in parts))
         it = list(m)
         lits.append("{| l_in := %s; l_acts := []; l_iter := %s; l_len := %d%%nat; l_gets := %s; l_named := %s |}" % (
             lit_in, clist(cstr(k) for k in it), len(m), clist(gets), clist(named)))
-        descr.append({"layers": layers})
+        descr.append({"layers": lit_in})
         ctx.count("layers", "overlap=%d" % sum(1 for k in keys if sum(k in d for d in layers) > 1))
         ctx.distinct.add(lits[-1])
     ctx.run_cases("layers", LIMPORTS, "", "lcase", "chk_layered", lits, descr, shard=200)
@@ -120,7 +150,14 @@ def _required_oracle(ctx: Ctx):
         f = rng.choice(FORMULAS)
         df_all = pd.DataFrame({k: (pd.Series(v, dtype=object) if isinstance(v[0], str) else v) for k, v in all_cols.items()})
         context = {k: v for k, v in ctxs.items() if k != "a" or rng.random() < 0.3}
-        rp = {"kind": "required", "formula": f, "context": sorted(context)}
+        how = rng.choice(["dict", "dict", "layered", "layered-named"])
+        if how != "dict":
+            # the context as a LayeredMapping of two mappings (this is what the default, the captured caller frame (locals, globals), looks like)
+            from formulaic.utils.layered_mapping import LayeredMapping as _LM
+            ks = sorted(context)
+            cut = rng.randint(0, len(ks))
+            context = _LM({k: context[k] for k in ks[:cut]}, {k: context[k] for k in ks[cut:]}, name="mine" if how == "layered-named" else None)
+        rp = {"kind": "required", "formula": f, "context": sorted(context), "context_type": how}
         ctx.oracle_runs += 1
         ctx.count("required", f.split(" ")[0][:12])
         try:
@@ -159,6 +196,8 @@ def _required_oracle(ctx: Ctx):
                 for v in vs:
                     base = str(v).split(".")[0]
                     want = "data" if base in data_req else "context" if base in context else "transforms" if base in TRANSFORMS else None
+                    if src is not None and want == "context" and how == "layered-named":
+                        src = src.split(":")[0]               # context:mine -- the caller's own layer name follows
                     if src != want and "value" in v.roles:
                         ctx.fail(f"variable {v!r} of {f!r} is reported to come from {src!r}; it came from {want!r}", rp)
         ctx.distinct.add((f, tuple(sorted(context))))
